@@ -58,6 +58,34 @@ def run(tier, seed, replay=None):
         return ck.finish()
     ck.sample({k: v for k, v in trs[0].items() if k != "input"})
     ck.sample({k: v for k, v in trs[-1].items() if k != "input"})
+    # ---- step level: phase-2 pivot sequences (wrapped module functions) replayed as Simplex!Pivot actions on the exact data
+    plain = [c for c in cases[nexp:] if not c.get("rowden") and c.get("cden", 1) == 1]
+    sc = cases[:nexp][: 150 if tier == "quick" else 1500] + plain[: 400 if tier == "quick" else 5000]
+    st = [x for r in run_tasks("lp", "run_lp_steps", sc, timeout=20) if isinstance(r, dict) for x in r.get("steps", [])]
+    if len(st) < len(sc) // 2:
+        raise tlc.MachineryError("simplex step traces could not be recorded (%d from %d LPs)" % (len(st), len(sc)))
+    sv = ck.validate(DIR, "SimplexSteps", st, "phase-2 pivot sequences of solve_lp", timeout=3000)
+    for v in sv:
+        for d in v.get("div", []):
+            ck.divergences["simplex_step:" + d] = ck.divergences.get("simplex_step:" + d, 0) + 1
+    ck.extra["simplex_step_level"] = {"runs": len(st), "pivots_replayed": sum(v.get("pivots", 0) for v in sv),
+                                      "runs_with_divergence": sum(1 for v in sv if v.get("div"))}
+    sctl = []
+    for t, v in zip(st, sv):
+        if v.get("div") or len(t["pivots"]) < 2 or max(t["basis0"]) > t["m"] + t["n"]:
+            continue
+        c = copy.deepcopy(t); c["pivots"][0][1] = t["basis0"][0]; sctl.append((c, "Pivot."))               # a basic column "enters"
+        c = copy.deepcopy(t); c["pivots"] = c["pivots"][:-1]; sctl.append((c, "Declare."))                 # stops one pivot early
+        c = copy.deepcopy(t); c["pivots"][0][0] = c["pivots"][0][0] % t["m"] + 1; sctl.append((c, "Pivot."))  # wrong leaving row
+        if len(sctl) >= 9:
+            break
+    if len(sctl) < 3:
+        raise tlc.MachineryError("no simplex run with >= 2 pivots for the step-level controls")
+    fired = {}
+    for (c, exp), v in zip(sctl, ck.validate(DIR, "SimplexSteps", [c for c, _ in sctl], "step-level negative controls")):
+        fired[exp] = fired.get(exp, 0) + any(d.startswith(exp) or d.startswith("Bland.") for d in v.get("div", []))
+    for exp, k in fired.items():
+        ck.control(f"corrupted pivot record flagged by a Simplex guard {exp}* ({k} variants)", k > 0, str(fired))
     ctl = []
     for t, v in zip(trs[nexp:], vs[nexp:]):
         e = t["events"][0]
